@@ -31,7 +31,13 @@ for _c in _C09.sample:
 
 
 def EXTRA():
-    return effects.check_randomness()
+    out = effects.check_randomness()
+    # no draw may depend on the iteration order of a set (hash-seed dependent), and the batching option reaches the function that spawns one
+    # child generator per batch (so that the pool size cannot change which draws a sample gets)
+    out += effects.check_no_set_order_dependence(PROPERTY)
+    out += effects.check_option_forwarding(["thejoker.multiproc_helpers.rejection_sample_helper", "thejoker.multiproc_helpers.iterative_rejection_helper"],
+                                           PROPERTY, skip=("self", "joker_helper", "prior_samples_file"), only_callees=("make_full_samples",))
+    return out
 
 
 ASSUMPTIONS = ["bit-identity additionally needs numpy / pymc / LAPACK / h5py determinism and order-preserving pools (assumed)",
